@@ -76,7 +76,11 @@ def _r6(x):
     return round(float(x), 6)
 
 
-def gen_spec(rng: random.Random, max_nodes: int = 5, tie_p: float = 0.3, overrun_bias: float = 0.5, allow_source: bool = False, shadow_p: float = 0.12) -> dict:
+NAME_POOL = ["zeta", "alpha", "Mid", "m10", "m1", "b", "a_b", "a", "x9", "ctrl", "world", "M2", "sens", "agent_1", "agent"]
+
+
+def gen_spec(rng: random.Random, max_nodes: int = 5, tie_p: float = 0.3, overrun_bias: float = 0.5, allow_source: bool = False, shadow_p: float = 0.12,
+             scramble_p: float = 0.3, twin_p: float = 0.12) -> dict:
     n = rng.randint(2, max_nodes)
     tie = rng.random() < tie_p
     base = rng.choice(BASES)
@@ -173,6 +177,28 @@ def gen_spec(rng: random.Random, max_nodes: int = 5, tie_p: float = 0.3, overrun
         if rng.random() < shadow_p:
             c_["name"] = f"in{k_}"  # the receiver knows this input under a shadow name: connect(..., name=...)
     _repair(spec)
+    spec["share_dists"] = rng.random() < 0.35
+    if rng.random() < twin_p:
+        # a "twin": a second node of the same class with exactly the same inputs (same producers, windows, policies and - shared - distribution
+        # objects), rate and settings as an existing one, e.g. two identical loggers / redundant controllers. Nothing that is cached per kind of
+        # node (compiled steps, warm-up results) may be shared between the two objects.
+        cands = [i for i in range(n) if i != spec["sup"] and any(c["dst"] == i for c in conns)]
+        if cands:
+            j = rng.choice(cands)
+            nodes.append(dict(nodes[j], name=f"n{n}"))
+            for c in [c for c in conns if c["dst"] == j]:
+                conns.append(dict(c, dst=n))
+            spec["share_dists"] = True
+            spec["twin"] = [j, n]
+            n += 1
+            spec["open_loop"] = len(reachable_from_sup(spec)) < n
+    if rng.random() < scramble_p:
+        # nothing may depend on how nodes are called, in which order they sit in the `nodes` dict or in which order they were connected:
+        # names whose alphabetical order differs from the creation order (some are prefixes of others), shuffled dict and connect order
+        for nd, nm in zip(nodes, rng.sample(NAME_POOL, n)):
+            nd["name"] = nm
+        spec["dict_order"] = rng.sample(range(n), n)
+        spec["conn_order"] = rng.sample(range(len(conns)), len(conns))
     return spec
 
 
@@ -348,6 +374,19 @@ def build_nodes(spec, trace: bool = True, hash_recv: bool = True) -> Dict[str, "
     from .probes import ProbeNode
 
     nodes = []
+    _made: Dict[str, object] = {}
+    _plain = globals()["make_dist"]
+
+    def make_dist(d):  # noqa: F811
+        # `share_dists`: the user creates one distribution object per distinct setting and passes it to every node / connection that uses it
+        # (`d = Deterministic(0.01)` once, then `connect(..., delay_dist=d)` everywhere) instead of one object per use
+        if not spec.get("share_dists") or d[0] == "train":
+            return _plain(d)
+        key = repr(d)
+        if key not in _made:
+            _made[key] = _plain(d)
+        return _made[key]
+
     for i, nd in enumerate(spec["nodes"]):
         nodes.append(ProbeNode(name=nd["name"], rate=nd["rate"], delay_dist=make_dist(nd["dist"]), delay=nd.get("delay"), idx=i, trace=trace,
                                hash_recv=hash_recv, ts_shift=nd.get("ts_shift", 0.0), scheduling=const.Scheduling.FREQUENCY if nd["sched"] == "F" else const.Scheduling.PHASE,
@@ -355,11 +394,14 @@ def build_nodes(spec, trace: bool = True, hash_recv: bool = True) -> Dict[str, "
     for i, nd in enumerate(spec["nodes"]):
         if "stop_result" in nd:
             nodes[i].stop_result = nd["stop_result"]
-    for c in spec["conns"]:
+    co = [k for k in spec.get("conn_order", []) if k < len(spec["conns"])]
+    for k in co + [k for k in range(len(spec["conns"])) if k not in co]:
+        c = spec["conns"][k]
         nodes[c["dst"]].connect(nodes[c["src"]], blocking=c["blocking"], skip=c["skip"], window=c["window"],
                                 jitter=const.Jitter.LATEST if c["jitter"] == "L" else const.Jitter.BUFFER, delay_dist=make_dist(c["dist"]),
                                 delay=c.get("delay"), name=c.get("name"))
-    return {nd.name: nd for nd in nodes}
+    do = [i for i in spec.get("dict_order", []) if i < len(nodes)]
+    return {nodes[i].name: nodes[i] for i in do + [i for i in range(len(nodes)) if i not in do]}
 
 
 def spec_digest(spec) -> str:
